@@ -149,7 +149,7 @@ theorem InvH.pstep {k : Cfg} {s s' : St} {l : Label} (h : InvH s) (hf : pfire k 
       · split at hf
         · rename_i s1 hp; cases hf
           exact (h.ppop hp).of_ps rfl rfl rfl rfl (fun q => Or.inl rfl)
-        · cases hf
+        · cases hf; exact h.of_ps rfl rfl rfl rfl (fun q => Or.inl rfl)
     · cases hf
   | complete id e =>
     simp only [pfire] at hf
@@ -258,7 +258,7 @@ theorem InvC.pstep {k : Cfg} {s s' : St} {l : Label} (h : InvC k s) (hsz : s.siz
       · cases hf; exact h.congr rfl rfl
       · split at hf
         · rename_i s1 hp; cases hf; exact (h.ppop hp).congr rfl rfl
-        · cases hf
+        · cases hf; exact h.congr rfl rfl
     · cases hf
   | complete id e =>
     simp only [pfire] at hf
@@ -420,7 +420,7 @@ theorem InvZp.pstep {k : Cfg} {s s' : St} {l : Label} (h : InvZp k s) (hH : InvH
       · cases hf; exact h.congr rfl rfl rfl rfl rfl
       · split at hf
         · rename_i s1 hp; cases hf; exact (h.ppop hp).congr rfl rfl rfl rfl rfl
-        · cases hf
+        · cases hf; exact h.congr rfl rfl rfl rfl rfl
     · cases hf
   | complete id e =>
     simp only [pfire] at hf
@@ -579,7 +579,7 @@ theorem InvWp.pstep {k : Cfg} {s s' : St} {l : Label} (h : InvWp s) (hC : InvC k
             refine Or.inl (Or.inr ?_)
             simp only []
             rw [(condSignal_fields _).2.1]; simp
-        · cases hf
+        · cases hf; exact h.of_sig rfl (fun a => a) (fun _ a => a)
     · cases hf
   | complete id e =>
     simp only [pfire] at hf
